@@ -30,7 +30,7 @@ import itertools
 
 import numpy as np
 
-from mc.core import CaseResult, Space, run_check, block_of, innermost_partitura_frame, exc_text, Hang
+from mc.core import CaseResult, Space, run_check, innermost_partitura_frame, exc_text, Hang
 from mc import c10_model as M
 
 PID = "C10"
@@ -434,7 +434,7 @@ def spaces(tier, seed):
         "key-signatures",
         _blocked(lambda: M.gen_ks(4, (0, 1), 3, {1: "all", 2: "pool4", 3: "pool3"}),
                  lambda: M.gen_ks(5, (0, 2), 3, {1: "all", 2: "pool6", 3: "pool4"}), tier, seed),
-        bounds="core: timeline 0..4 / 1..4, every set of <=3 positions; one signature: fifths {-7,-1,0,3,7} x mode {major,minor,None} "
+        bounds="core: timeline 0..4 / 1..4, every set of <=3 positions; one signature: fifths -7..7 x mode {major,minor,None} "
                "and 'none'; two: ordered pairs of 4 values; three: ordered triples of 3 values; every insertion order; "
                "thorough: timeline 0..5 / 2..5, pairs of 6 values, triples of 4" + blk))
     # -- clefs
